@@ -39,7 +39,7 @@ def run(chk):
     r = chk.tlc("RunnerMC", "RunnerMC_quick.cfg", label="runner design: terminal states independent of set iteration order")
     if r.violated:
         raise MachineryError(f"Runner design violated {r.violated}")
-    ncase = 12 if chk.thorough() else 4
+    ncase = 12 if chk.thorough() else 5
     jobs = []
     cases = []
     for c in range(ncase):
@@ -53,6 +53,11 @@ def run(chk):
         order = (1, 0)
         if shim == "1":
             order = chk.rng.choice([(2, 0), (3, 0), (2, 1)] + ([(4, 0)] if chk.thorough() else []))
+        if c % 4 == 3 or (c == 4 and not chk.thorough()):
+            # always one QED case whose path has a five-flavour segment (all unified-basis sectors populated)
+            order, shim = chk.rng.choice([(1, 1), (2, 1), (1, 2)]), "1"
+            while rc.path_len(inst) < 2 or not any(t[1] == 5 for t in inst["targets"]):
+                inst = rc.random_instance(chk.rng, ntok=5, max_targets=3, nfs=(3, 4, 5))
         th, op = runner.cards_for(inst, tab, order=order, xgrid=[0.1, 0.5, 1.0] if shim == "0" else [0.2, 1.0],
                                   method="iterate-exact" if order[1] else chk.rng.choice(["iterate-exact", "truncated", "decompose-exact"]))
         thf = chk.scratch / f"th{c}.yaml"
